@@ -168,6 +168,45 @@ def fields_encoded_at_write_time(prog, rep, rule="str-encoded-when-written"):
         rep.ok(rule, f"no class keeps the result of BTSString.write on an object ({n} local uses): fixed-width text is encoded where it is emitted")
 
 
+def text_not_by_truthiness(prog, rep, rule="str-empty-is-a-value"):
+    """The empty string is a valid value of every fixed-width field (length 0, shorter than the field).  A text parameter that is
+    tested by truthiness (`comment or default`, `if not label:`) treats "" as "not given": the caller's empty string is replaced by
+    something else and what is written is not what was passed.  "Not given" is spelled `is None`."""
+    n = 0
+    bad = 0
+    for m in prog.modules.values():
+        funcs = list(m.functions.values()) + [f for c in m.classes.values() for f in c.all_funcs()]
+        for f in funcs:
+            a = f.node.args
+            allp = a.posonlyargs + a.args + a.kwonlyargs
+            defaults = dict(zip([x.arg for x in a.args[len(a.args) - len(a.defaults):]], a.defaults))
+            defaults.update({x.arg: d for x, d in zip(a.kwonlyargs, a.kw_defaults) if d is not None})
+            texts = set()
+            for x in allp:
+                ann = norm(x.annotation) if x.annotation is not None else ""
+                if ann in ("str", "Optional[str]", "Union[str, None]", "str | None") or (isinstance(defaults.get(x.arg), ast.Constant) and isinstance(defaults[x.arg].value, str)):
+                    texts.add(x.arg)
+            if not texts:
+                continue
+            rebound = {y.id for y in walk_no_nested(f.node) if isinstance(y, ast.Name) and isinstance(y.ctx, ast.Store)}
+            for x in walk_no_nested(f.node):
+                cands = []
+                if isinstance(x, ast.BoolOp):
+                    cands += x.values[:-1] if isinstance(x.op, ast.Or) else x.values
+                if isinstance(x, (ast.If, ast.While, ast.IfExp)):
+                    cands.append(x.test)
+                for c_ in cands:
+                    while isinstance(c_, ast.UnaryOp) and isinstance(c_.op, ast.Not):
+                        c_ = c_.operand
+                    if isinstance(c_, ast.Name) and c_.id in texts and c_.id not in rebound:
+                        n += 1
+                        bad += 1
+                        rep.fail(rule, m.path.name, f.qualname, x, f"the text parameter `{c_.id}` is tested by truthiness (`{norm(x)[:60]}`): an empty string - a valid field value - is taken for \"not given\" "
+                                 "and something else is written in its place", construct=f"{f.qualname} truthiness of {c_.id}")
+    if not bad:
+        rep.ok(rule, "no text parameter of the package is tested by truthiness")
+
+
 def run(prog, rep):
     rep.explanation = (
         "byte-length abstract domain over the body of BTSString.write: lengths are linear forms over `size` and "
@@ -180,6 +219,7 @@ def run(prog, rep):
     mod = "tdfTypes.py"
     string_write_rules(prog, rep)
     rep.attempt(fields_encoded_at_write_time, prog, rep)
+    rep.attempt(text_not_by_truthiness, prog, rep)
     # 'reading it back returns the identical string': reader and writer use one codec at every call site
     from .. import primitives as PR
     rep.attempt(PR.string_codec, prog, rep, with_nul_cut=False)
